@@ -341,6 +341,10 @@ def run(prop, seed, budget, ctx):
         gf, gn, gd, gh = generics.run_part(prop, seed, budget)
         failures += gf; evaluations += gn; distinct |= gd
         for k_, v_ in gh.items(): hist[k_] += v_
+        import objmodel
+        gf, gn, gd, gh = objmodel.run_part(prop, seed, budget)
+        failures += gf; evaluations += gn; distinct |= gd
+        for k_, v_ in gh.items(): hist[k_] += v_
     if prop == "C07":
         from schema_conv import run_conv_schema
         cf, cn = run_conv_schema(rnd, seed, budget, hist, distinct, build_module); failures += cf; evaluations += cn
